@@ -126,6 +126,60 @@ PROPS["C11"] = dict(
          "to leading zeros; non-trivial = non-empty text",
 )
 
+def classify_seq(op, impl, model_line):
+    f = op.split(" ")
+    parts = model_line.split("\t")
+    S = parts[3] if len(parts) > 3 else "-"
+    if len(f) == 10:
+        if "dir=" in S:
+            pad = bytes.fromhex(f[8]).decode("latin-1") if f[8] != "-" else ""
+            kind = "chars" if pad and pad[0] in "#@" else ("printf" if pad.startswith("%") and "UDIM" not in pad else ("houdini" if pad.startswith("$") else "udim"))
+            return f"unambiguous:{kind}:style{f[1]}"
+        return "hypothesis-violated"
+    if len(f) == 6 and f[5] == "single":
+        return "single-file"
+    return "mutated-or-exhaustive"
+
+
+def classify_c09(op, impl, model_line):
+    f = op.split(" ")
+    n = 0 if f[1] == "-" else f[1].count(",") + 1
+    if n < 3:
+        return None
+    return f"f2r:sorted{f[2]}:" + ("zfill" if int(f[3]) >= 2 else "plain")
+
+
+def classify_c10(op, impl, model_line):
+    k = op.split(" ", 1)[0]
+    if k == "seq.ops":
+        return "style-switch-history"
+    return k
+
+
+PROPS["C03"] = dict(
+    n_quick=8000, n_thorough=60000, classify=classify_seq,
+    rule="op seq: NewFileSequencePad(style, text) with all getters, String, Format(default template), Frame/Index queries; "
+         "text = dir+base+range+pad+ext from generators over 12 dirs x 16 bases (+ random basenames) x random range texts x 23 "
+         "pad tokens x 11 extensions x both styles, with the 5-tuple as specification side when it lies in Spec.unambig; plus "
+         "tuples violating one hypothesis at a time, concrete single-file paths, mutated strings; thorough adds every string "
+         "of length <= 4 over a 13-symbol alphabet (pins the regex character classes); non-trivial = any distinct op, class = domain",
+    assumptions=["text/template engine trusted: Format(default template) is modelled as String()",
+                 "Windows path separators not modelled"],
+)
+PROPS["C09"] = dict(
+    n_quick=8000, n_thorough=150000, classify=classify_c09,
+    rule="op f2r: FramesToFrameRange(list, sorted, zfill 0..6) on random duplicate-free lists with planted runs of every "
+         "stride/direction (scale 12 and 2000), re-parsed with NewFrameSet; thorough adds all duplicate-free lists of length "
+         "<= 5 over [-3..6]; non-trivial = >= 3 frames",
+    assumptions=["values and pairwise differences fit an int (theorem hypothesis Fits)"],
+)
+PROPS["C10"] = dict(
+    n_quick=3000, n_thorough=60000, classify=classify_c10,
+    rule="ops pad.chars (width -> chars -> width; quick: widths -1..64 + random to 4096, thorough: all -1..4096, both styles), "
+         "pad.size (every {#,@} string up to length 6 / thorough 12, the token table, random printf/houdini widths), seq.ops "
+         "histories of SetPadding / SetPaddingStyle switches checking width and frame paths; non-trivial = any distinct op",
+)
+
 KNOWN_CLASSES = {}
 
 NOT_YET = {}
@@ -142,6 +196,22 @@ MANIFEST_TEXT = {
              "denotation for every range text; tie by differential run on grammar-generated and mutated texts.",
         note="Trusted: Lean kernel; model of frameset.go/fileseq.go regex stage (hand-written recogniser for the three anchored "
              "patterns, Go regexp trusted); sign of N ignored by interpretation."),
+    "C03": dict(
+        text="Theorems: for every tuple in the decidable unambiguous domain (Spec.unambig) the model parser returns exactly the "
+             "five components, the pad width the token denotes under the style and the frame set of the range, and String() "
+             "reproduces the input; the hand-written recogniser for splitPattern is tied to Go's regexp by exhaustive short "
+             "strings and generated tuples on every run.",
+        note="Trusted: Lean kernel; regex recogniser as model of Go regexp (leftmost-first), tied by correspondence; "
+             "text/template trusted; unambig is deliberately conservative on '%', '$', '<' in names."),
+    "C09": dict(
+        text="Theorems: for every non-empty duplicate-free list (values and differences fitting an int) and every zfill the "
+             "model's FramesToFrameRange text parses back to exactly the list (ascending when sorted), numerals are zero "
+             "padded to >= zfill; empty list -> empty string.",
+        note="Trusted: Lean kernel; model of fileseq.go FramesToFrameRange tied by correspondence; sort.Ints modelled by insertion sort."),
+    "C10": dict(
+        text="Theorems: padSize (padChars n) = n for all n >= 1 in both styles; width of every {#,@} string; every documented "
+             "token has its documented width; style switch keeps width and every frame path.",
+        note="Trusted: Lean kernel; model of pad.go tied by correspondence (pad tables observed through every {#,@} string)."),
     "C08": dict(
         text="Theorems: for every accepted range text with >= 1 frame the model's Normalize yields sortedSet of the frames and "
              "Invert the complement within [min,max], both well-formed; their printed strings re-parse to those lists; "
